@@ -109,7 +109,7 @@ theorem concat_inj {α} {t t' : List α} {x y : α} (h : t ++ [x] = t' ++ [y]) :
   exact ⟨this.1, by simpa using this.2⟩
 
 /-- the two pieces of a site cut the contig in two non-empty parts that tile it -/
-theorem site_arith {input ptx : List Scaffold} {err : Int} (hd : DeepCut input ptx err) (x : Site)
+theorem site_arith {input ptx : List Scaffold} {err : Int} (hd : DeepBase input ptx err) (x : Site)
     (hx : SiteOk input ptx err x) :
     0 < (pieceO input (pieceAt ptx x.a).2).stop - (pieceAt ptx x.a).2.stop ∧
     0 < (pieceAt ptx x.b).2.start - (pieceO input (pieceAt ptx x.b).2).start ∧
@@ -299,5 +299,340 @@ structure CutInv (input ptx : List Scaffold) (b1 : Build) (done : List (Site × 
   extra : bc.extra = b1.extra
   joinGap : bc.joinGap = b1.joinGap
   err : bc.err = b1.err
+
+/-- what `cut_fragments` does at one site, in terms of the two current results -/
+theorem cut_site {input ptx : List Scaffold} {err : Int} (hd : DeepCut input ptx err) (b1 bc : Build)
+    (done : List (Site × Nat)) (k : Key) (hk : k ∈ sharedKeys input ptx)
+    (hfound : b1.found = (regOf input ptx).1)
+    (hdone : ∀ y ∈ done, y.1 ∈ sites input ptx ∧ y.1.key ≠ k)
+    (hinv : CutInv input ptx b1 done bc) :
+    ∃ fnd bc' x, x = siteOf ptx (regOf input ptx).1 k ∧ dGet? bc.found k = some fnd ∧ cutFragments bc fnd = .ok bc' ∧
+      bc'.store.length = bc.store.length ∧
+      bc'.store.getD x.a default =
+        { o := trimEndSpec (oidA (oid0 input) (x, done.length)) (bc.store.getD x.a default).o, added := true } ∧
+      bc'.store.getD x.b default =
+        { o := trimStartSpec (oidB (oid0 input) (x, done.length)) (bc.store.getD x.b default).o, added := true } ∧
+      (∀ i, i ≠ x.a → i ≠ x.b → bc'.store.getD i default = bc.store.getD i default) ∧
+      bc'.nextOid = bc.nextOid + 2 ∧ bc'.cuts = bc.cuts + 1 ∧ bc'.found = bc.found ∧ bc'.multi = bc.multi ∧
+      bc'.namer = bc.namer ∧ bc'.extra = bc.extra ∧ bc'.joinGap = bc.joinGap ∧ bc'.err = bc.err := by
+  obtain ⟨fnd, s, t, hget, hst, hkey, hc⟩ := site_cases hd k hk
+  generalize hxdef : siteOf ptx (regOf input ptx).1 k = x at hc
+  have hxs : x ∈ sites input ptx := by rw [← hxdef]; exact List.mem_map_of_mem hk
+  have hxk : x.key = k := by rcases hc with e | e <;> rw [e]
+  have hxf : fnd.fragment = x.frag := by rcases hc with e | e <;> rw [e]
+  have hab : (x.a = s ∧ x.b = t) ∨ (x.a = t ∧ x.b = s) := by rcases hc with e | e <;> rw [e] <;> simp
+  have hok := hd.sitesOk x hxs
+  obtain ⟨hka_, hfa⟩ := hd.piece x.a hok.inA
+  obtain ⟨hkb_, hfb⟩ := hd.piece x.b hok.inB
+  obtain ⟨ta, hta⟩ := List.getLast?_eq_some_iff.1 hok.lastA
+  obtain ⟨Ga, ra, hGa⟩ := hfa.head
+  obtain ⟨rb, hrb⟩ := List.head?_eq_some_iff.1 hok.headB
+  obtain ⟨Hb, tb, hHb⟩ := hfb.last
+  have hFoid : x.frag.oid < oid0 input := by
+    obtain ⟨sc, hsc, hinf⟩ := hfa.slice
+    exact oid_lt_oid0 input sc hsc _ hinf _ (by rw [hta, C18.ids_append]; simp [C18.ids, fragmentsOf])
+  obtain ⟨hea, hsa⟩ := earlier_a hd x hxs done (by rw [hxk]; exact hdone) (oid0 input)
+  obtain ⟨hsb, heb⟩ := earlier_b hd x hxs done (by rw [hxk]; exact hdone) (oid0 input)
+  -- the two current results
+  have hca : bc.store.getD x.a default =
+      { o := cutO (startCutIn (oid0 input) done x.a) none (labelled (pieceAt ptx x.a).1 (pieceO input (pieceAt ptx x.a).2)),
+        added := true } := by
+    rw [hinv.store _ hok.inA]; unfold resDeepIn; simp only [hea]
+  have hcb : bc.store.getD x.b default =
+      { o := cutO none (endCutIn (oid0 input) done x.b) (labelled (pieceAt ptx x.b).1 (pieceO input (pieceAt ptx x.b).2)),
+        added := true } := by
+    rw [hinv.store _ hok.inB]; unfold resDeepIn; simp only [hsb]
+  obtain ⟨⟨ta', hrowsA⟩, hstopA, hbaitA, hfirstA⟩ := cutO_a_facts
+    (labelled (pieceAt ptx x.a).1 (pieceO input (pieceAt ptx x.a).2)) x.frag Ga ra ta
+    (startCutIn (oid0 input) done x.a) (oid0 input) hGa hta hfa.distinct hFoid
+    (fun oid' h => ⟨(hsa oid' h).1, (hsa oid' h).2 Ga ra hGa⟩)
+  obtain ⟨⟨rb', hrowsB⟩, hstartB, hbaitB, hlastB⟩ := cutO_b_facts
+    (labelled (pieceAt ptx x.b).1 (pieceO input (pieceAt ptx x.b).2)) x.frag Hb rb tb
+    (endCutIn (oid0 input) done x.b) (oid0 input) hrb hHb hfb.distinct hFoid
+    (fun oid' h => ⟨(heb oid' h).1, (heb oid' h).2 Hb tb hHb⟩)
+  obtain ⟨hda, hdb, hsum⟩ := site_arith hd.base x hok
+  generalize hcadef : cutO (startCutIn (oid0 input) done x.a) none
+    (labelled (pieceAt ptx x.a).1 (pieceO input (pieceAt ptx x.a).2)) = ca at *
+  generalize hcbdef : cutO none (endCutIn (oid0 input) done x.b)
+    (labelled (pieceAt ptx x.b).1 (pieceO input (pieceAt ptx x.b).2)) = cb at *
+  have hbaitA' : ca.bait = (pieceAt ptx x.a).2 := by rw [hbaitA]; exact hfa.bait
+  have hbaitB' : cb.bait = (pieceAt ptx x.b).2 := by rw [hbaitB]; exact hfb.bait
+  have hstopA' : ca.stop = (pieceO input (pieceAt ptx x.a).2).stop := hstopA
+  have hstartB' : cb.start = (pieceO input (pieceAt ptx x.b).2).start := hstartB
+  have heoA : ca.endOverhang = (pieceO input (pieceAt ptx x.a).2).stop - (pieceAt ptx x.a).2.stop := by
+    unfold endOverhang; rw [hstopA', hbaitA']
+  have hsoB : cb.startOverhang = (pieceAt ptx x.b).2.start - (pieceO input (pieceAt ptx x.b).2).start := by
+    unfold startOverhang; rw [hstartB', hbaitB']
+  have hstr := hok.strand
+  have htagsA : ca.bait.tags = [] := by rw [hbaitA']; exact hka_.untagged
+  have htagsB : cb.bait.tags = [] := by rw [hbaitB']; exact hkb_.untagged
+  have hlenF : x.frag.length = x.frag.stop - x.frag.start + 1 := rfl
+  have htrimA : ∀ oid, ca.trimFragment x.frag true false oid =
+      .ok (trimEndSpec oid ca, cutFragEnd x.frag ca.endOverhang oid) :=
+    fun oid => trimFragment_end_fwd ca x.frag ta' oid hrowsA (by rw [heoA]; exact hda) (by rw [heoA]; omega) htagsA hstr
+  have hneB : cb.rows ≠ [] := by rw [hrowsB]; simp
+  have hneA : ca.rows ≠ [] := by rw [hrowsA]; simp
+  obtain ⟨c2, hc2⟩ := lastIs_ok_of_ne x.frag hneB
+  obtain ⟨c1, hc1⟩ := firstIs_ok_of_ne x.frag hneA
+  have hlastB' : rb' = [] ∨ lastIs cb x.frag = .ok false := by
+    cases c2 with
+    | false => exact Or.inr hc2
+    | true =>
+      obtain ⟨e1, e2⟩ := hlastB hc2
+      left
+      rw [e1, e2] at hrowsB
+      simpa using hrowsB.symm
+  have htrimB : ∀ oid, cb.trimFragment x.frag false true oid =
+      .ok (trimStartSpec oid cb, cutFragStart x.frag cb.startOverhang oid) :=
+    fun oid => trimFragment_start_fwd cb x.frag rb' oid hrowsB hlastB' (by rw [hsoB]; exact hdb) (by rw [hsoB]; omega)
+      htagsB hstr
+  have hlA : lastIs ca x.frag = .ok true := by rw [C18.lastIs_concat ca _ _ ta' hrowsA, C18.rowIs_self]
+  have hfB : firstIs cb x.frag = .ok true := by rw [C18.firstIs_cons cb _ _ rb' hrowsB, C18.rowIs_self]
+  have hgetA : getRes bc.store x.a = ca := by unfold getRes; rw [hca]
+  have hgetB : getRes bc.store x.b = cb := by unfold getRes; rw [hcb]
+  have hkA := fragmentStartIfTrimmed_eq hc1 hlA
+  have hkB := fragmentStartIfTrimmed_eq hfB hc2
+  have hvalA := hka_.valid
+  have hvalB := hkb_.valid
+  have habut := hok.abut
+  have hpos := hok.samePos
+  have hla : x.a < bc.store.length := by rw [hinv.len]; exact hok.inA
+  have hlb : x.b < bc.store.length := by rw [hinv.len]; exact hok.inB
+  have hnext := hinv.nextOid
+  rcases hstr with hs1 | hs1
+  · -- forward contig: piece `a` first
+    have hfl0 : cutFlags x.frag.strand 0 1 = (true, false) := by rw [hs1]; rfl
+    have hfl1 : cutFlags x.frag.strand 1 1 = (false, true) := by rw [hs1]; rfl
+    have hlt : (if x.frag.strand = 1 then (if c1 = true then x.frag.start + ca.startOverhang else x.frag.start)
+          else (if true = true then x.frag.start + ca.endOverhang else x.frag.start)) <
+        (if x.frag.strand = 1 then (if true = true then x.frag.start + cb.startOverhang else x.frag.start)
+          else (if c2 = true then x.frag.start + cb.endOverhang else x.frag.start)) := by
+      simp only [hs1, if_true]
+      cases c1 with
+      | false => simp only [Bool.false_eq_true, if_false]; omega
+      | true =>
+        obtain ⟨e1, e2⟩ := hfirstA hc1
+        have hst : ca.start = (pieceO input (pieceAt ptx x.a).2).start := by rw [e1]; rfl
+        have hsp := hfa.span
+        have e2' : (pieceO input (pieceAt ptx x.a).2).rows = [.frag x.frag] := e2
+        rw [e2', C18.rowsLength_singleton] at hsp
+        simp only [Row.length] at hsp
+        simp only [if_true, startOverhang, hst, hbaitA', hstartB', hbaitB']
+        omega
+    refine ⟨fnd, _, x, rfl, by rw [hinv.found, hfound]; exact hget,
+      cutFragments_pair_ab bc fnd s t x.a x.b x.a x.b _ _ (trimEndSpec bc.nextOid ca) (trimStartSpec (bc.nextOid + 1) cb)
+        (cutFragEnd x.frag ca.endOverhang bc.nextOid) (cutFragStart x.frag cb.startOverhang (bc.nextOid + 1))
+        hst hab (by rw [hgetA, hxf]; exact hkA) (by rw [hgetB, hxf]; exact hkB) (Or.inl ⟨rfl, rfl, hlt⟩) hok.ne
+        (by rw [hxf, hca, hfl0]; exact htrimA _) (by rw [hxf, hcb, hfl1]; exact htrimB _)
+        (by
+          rw [hxf]
+          apply qc_two
+          · rfl
+          · simp only [cutFragEnd, hs1, if_true]; omega
+          · simp only [cutFragStart, hs1, if_true]; omega
+          · simp only [cutFragEnd, cutFragStart, hs1, if_true]; omega
+          · simp only [Fragment.length, cutFragEnd, cutFragStart, hs1, if_true]; omega),
+      ?_, ?_, ?_, ?_, ?_, rfl, rfl, rfl, rfl, rfl, rfl, rfl⟩
+    · simp only [length_setAt]
+    · simp only [getD_two_sets _ _ _ _ _ _ _ hok.ne hla hlb, if_neg hok.ne, if_true, hca, oidA, hs1, hnext]
+      first | done | congr 2
+    · simp only [getD_two_sets _ _ _ _ _ _ _ hok.ne hla hlb, if_true, hcb, oidB, hs1, hnext]
+      first | done | congr 2
+    · intro i hia hib
+      simp only [getD_two_sets _ _ _ _ _ _ _ hok.ne hla hlb, if_neg hia, if_neg hib]
+    · show bc.nextOid + 1 + 1 = bc.nextOid + 2
+      omega
+  · -- reverse contig: piece `b` first
+    have hfl0 : cutFlags x.frag.strand 0 1 = (false, true) := by rw [hs1]; rfl
+    have hfl1 : cutFlags x.frag.strand 1 1 = (true, false) := by rw [hs1]; rfl
+    have hn1 : ¬ (x.frag.strand = 1) := by omega
+    have hlt : (if x.frag.strand = 1 then (if true = true then x.frag.start + cb.startOverhang else x.frag.start)
+          else (if c2 = true then x.frag.start + cb.endOverhang else x.frag.start)) <
+        (if x.frag.strand = 1 then (if c1 = true then x.frag.start + ca.startOverhang else x.frag.start)
+          else (if true = true then x.frag.start + ca.endOverhang else x.frag.start)) := by
+      simp only [hn1, if_false, if_true]
+      cases c2 with
+      | false => simp only [Bool.false_eq_true, if_false]; omega
+      | true =>
+        obtain ⟨e1, e2⟩ := hlastB hc2
+        have hst : cb.stop = (pieceO input (pieceAt ptx x.b).2).stop := by rw [e1]; rfl
+        have hsp := hfb.span
+        have e2' : (pieceO input (pieceAt ptx x.b).2).rows = [.frag x.frag] := e2
+        rw [e2', C18.rowsLength_singleton] at hsp
+        simp only [Row.length] at hsp
+        simp only [if_true, endOverhang, hst, hbaitA', hstopA', hbaitB']
+        omega
+    have hne' : x.b ≠ x.a := fun e => hok.ne e.symm
+    refine ⟨fnd, _, x, rfl, by rw [hinv.found, hfound]; exact hget,
+      cutFragments_pair_ab bc fnd s t x.a x.b x.b x.a _ _ (trimStartSpec bc.nextOid cb) (trimEndSpec (bc.nextOid + 1) ca)
+        (cutFragStart x.frag cb.startOverhang bc.nextOid) (cutFragEnd x.frag ca.endOverhang (bc.nextOid + 1))
+        hst hab (by rw [hgetA, hxf]; exact hkA) (by rw [hgetB, hxf]; exact hkB) (Or.inr ⟨rfl, rfl, hlt⟩) hne'
+        (by rw [hxf, hcb, hfl0]; exact htrimB _) (by rw [hxf, hca, hfl1]; exact htrimA _)
+        (by
+          rw [hxf]
+          apply qc_two
+          · rfl
+          · simp only [cutFragStart, hn1, if_false]; omega
+          · simp only [cutFragEnd, hn1, if_false]; omega
+          · simp only [cutFragEnd, cutFragStart, hn1, if_false]; omega
+          · simp only [Fragment.length, cutFragEnd, cutFragStart, hn1, if_false]; omega),
+      ?_, ?_, ?_, ?_, ?_, rfl, rfl, rfl, rfl, rfl, rfl, rfl⟩
+    · simp only [length_setAt]
+    · simp only [getD_two_sets _ _ _ _ _ _ _ hne' hlb hla, if_true, hca, oidA, hn1, if_false, hnext]
+      first | done | congr 2
+    · simp only [getD_two_sets _ _ _ _ _ _ _ hne' hlb hla, if_neg hne', if_true, hcb, oidB, hn1, if_false, hnext]
+      first | done | congr 2
+    · intro i hia hib
+      simp only [getD_two_sets _ _ _ _ _ _ _ hne' hlb hla, if_neg hia, if_neg hib]
+    · show bc.nextOid + 1 + 1 = bc.nextOid + 2
+      omega
+
+theorem cut_step {input ptx : List Scaffold} {err : Int} (hd : DeepCut input ptx err) (b1 bc : Build)
+    (done : List (Site × Nat)) (k : Key) (hk : k ∈ sharedKeys input ptx)
+    (hfound : b1.found = (regOf input ptx).1)
+    (hdone : ∀ y ∈ done, y.1 ∈ sites input ptx ∧ y.1.key ≠ k)
+    (hinv : CutInv input ptx b1 done bc) :
+    ∃ fnd bc', dGet? bc.found k = some fnd ∧ cutFragments bc fnd = .ok bc' ∧
+      CutInv input ptx b1 (done ++ [(siteOf ptx (regOf input ptx).1 k, done.length)]) bc' := by
+  obtain ⟨fnd, bc', x, hx, hget, hcut, hlen, hA, hB, hO, hn, hc, hf, hm, hnm, hex, hj, he⟩ :=
+    cut_site hd b1 bc done k hk hfound hdone hinv
+  subst hx
+  have hxs : siteOf ptx (regOf input ptx).1 k ∈ sites input ptx := List.mem_map_of_mem hk
+  obtain ⟨_, _, _, -, -, -, hcases⟩ := site_cases hd k hk
+  have hxk : (siteOf ptx (regOf input ptx).1 k).key = k := by rcases hcases with e | e <;> rw [e]
+  generalize siteOf ptx (regOf input ptx).1 k = x at *
+  have hok := hd.sitesOk x hxs
+  have hba : ¬ (x.b = x.a) := fun e => hok.ne e.symm
+  have hab' : ¬ (x.a = x.b) := hok.ne
+  obtain ⟨hea, -⟩ := earlier_a hd x hxs done (by rw [hxk]; exact hdone) (oid0 input)
+  obtain ⟨hsb, heb⟩ := earlier_b hd x hxs done (by rw [hxk]; exact hdone) (oid0 input)
+  refine ⟨fnd, bc', hget, hcut, ⟨by rw [hlen]; exact hinv.len, ?_, ?_, ?_, hf.trans hinv.found, hm.trans hinv.multi,
+    hnm.trans hinv.namer, hex.trans hinv.extra, hj.trans hinv.joinGap, he.trans hinv.err⟩⟩
+  · intro i hi
+    by_cases ea : i = x.a
+    · subst ea
+      rw [hA, hinv.store _ hi]
+      unfold resDeepIn
+      simp only [startCutIn_append, endCutIn_append, hea, if_true, if_neg hba]
+      cases startCutIn (oid0 input) done x.a <;> rfl
+    · by_cases eb : i = x.b
+      · subst eb
+        rw [hB, hinv.store _ hi]
+        unfold resDeepIn
+        simp only [startCutIn_append, endCutIn_append, hsb, if_true, if_neg hab']
+        cases hec : endCutIn (oid0 input) done x.b with
+        | none => rfl
+        | some e =>
+          simp only
+          congr 1
+          obtain ⟨-, hfb⟩ := hd.piece x.b hok.inB
+          obtain ⟨rb, hrb⟩ := List.head?_eq_some_iff.1 hok.headB
+          obtain ⟨Hb, tb, hHb⟩ := hfb.last
+          have htb := (heb e hec).2 Hb tb hHb
+          obtain ⟨m, hm⟩ : ∃ m, rb = m ++ [.frag Hb] := by
+            cases tb with
+            | nil => exact absurd rfl htb
+            | cons y t' =>
+              rw [hrb] at hHb
+              simp only [List.cons_append, List.cons.injEq] at hHb
+              exact ⟨t', hHb.2⟩
+          exact trimStart_trimEnd_comm _ x.frag Hb m _ e (by rw [← hm]; exact hrb)
+      · rw [hO i ea eb, hinv.store _ hi]
+        unfold resDeepIn
+        have e1 : ¬ (x.b = i) := fun e => eb e.symm
+        have e2 : ¬ (x.a = i) := fun e => ea e.symm
+        simp only [startCutIn_append, endCutIn_append, if_neg e1, if_neg e2]
+        cases startCutIn (oid0 input) done i <;> cases endCutIn (oid0 input) done i <;> rfl
+  · rw [hn, hinv.nextOid]; simp only [List.length_append, List.length_singleton]; omega
+  · rw [hc, hinv.cuts]; simp only [List.length_append, List.length_singleton]; omega
+
+/-! ### the whole loop -/
+
+/-- the loop body of `cut_remaining_overlaps` -/
+def cutKey (b : Build) (k : Key) : R Build :=
+  match dGet? b.found k with
+  | some fnd => cutFragments b fnd
+  | none => pure b
+
+theorem cutRemaining_eq'' (b : Build) :
+    cutRemaining b = (do let b' ← b.multi.foldlM cutKey b; pure { b' with multi := [] }) := rfl
+
+theorem cutFold_deep {input ptx : List Scaffold} {err : Int} (hd : DeepCut input ptx err) (b1 : Build)
+    (hfound : b1.found = (regOf input ptx).1) (ks : List Key) :
+    ∀ (dks : List Key) (bc : Build), sharedKeys input ptx = dks ++ ks →
+      CutInv input ptx b1 (dks.map (siteOf ptx (regOf input ptx).1)).zipIdx bc →
+      ∃ bc', ks.foldlM cutKey bc = .ok bc' ∧
+        CutInv input ptx b1 ((dks ++ ks).map (siteOf ptx (regOf input ptx).1)).zipIdx bc' := by
+  induction ks with
+  | nil => intro dks bc _ hinv; exact ⟨bc, rfl, by simpa using hinv⟩
+  | cons k ks' ih =>
+    intro dks bc hsplit hinv
+    have hnd : (dks ++ k :: ks').Nodup := by rw [← hsplit]; exact (regOf_ok input ptx).multiNodup
+    have hk : k ∈ sharedKeys input ptx := by rw [hsplit]; simp
+    have hdone : ∀ y ∈ (dks.map (siteOf ptx (regOf input ptx).1)).zipIdx, y.1 ∈ sites input ptx ∧ y.1.key ≠ k := by
+      intro y hy
+      obtain ⟨y1, y2⟩ := y
+      obtain ⟨hlt, hy1⟩ := List.mem_zipIdx' hy
+      have hmem : y1 ∈ dks.map (siteOf ptx (regOf input ptx).1) := by rw [hy1]; exact List.getElem_mem _
+      obtain ⟨k', hk', rfl⟩ := List.mem_map.1 hmem
+      have hk's : k' ∈ sharedKeys input ptx := by rw [hsplit]; simp [hk']
+      obtain ⟨_, _, _, -, -, -, hcases⟩ := site_cases hd k' hk's
+      have hkk : (siteOf ptx (regOf input ptx).1 k').key = k' := by rcases hcases with e | e <;> rw [e]
+      refine ⟨List.mem_map_of_mem hk's, ?_⟩
+      simp only [hkk]
+      intro e
+      subst e
+      rw [List.nodup_append] at hnd
+      exact hnd.2.2 _ hk' _ (by simp) rfl
+    obtain ⟨fnd, bc1, hget, hcut, hinv1⟩ := cut_step hd b1 bc _ k hk hfound hdone hinv
+    have hlen : (dks.map (siteOf ptx (regOf input ptx).1)).zipIdx.length = dks.length := by simp
+    have hnew : (dks.map (siteOf ptx (regOf input ptx).1)).zipIdx ++
+          [(siteOf ptx (regOf input ptx).1 k, (dks.map (siteOf ptx (regOf input ptx).1)).zipIdx.length)] =
+        ((dks ++ [k]).map (siteOf ptx (regOf input ptx).1)).zipIdx := by
+      rw [hlen, List.map_append, List.zipIdx_append]
+      simp
+    rw [hnew] at hinv1
+    obtain ⟨bc2, hfold, hinv2⟩ := ih (dks ++ [k]) bc1 (by rw [hsplit]; simp) hinv1
+    refine ⟨bc2, ?_, by simpa using hinv2⟩
+    simp only [List.foldlM_cons, cutKey, hget, hcut, bind, Except.bind]
+    exact hfold
+
+theorem store_eq_of_pointwise (input ptx : List Scaffold) (base : Nat) (done : List (Site × Nat)) (l : List Res)
+    (hlen : l.length = (allPieces ptx).length)
+    (h : ∀ i, i < (allPieces ptx).length → l.getD i default = resDeepIn input base done (pieceAt ptx i, i)) :
+    l = storeDeepIn input ptx base done := by
+  apply List.ext_getElem?
+  intro i
+  unfold storeDeepIn
+  rw [List.getElem?_map, List.getElem?_zipIdx]
+  by_cases hi : i < (allPieces ptx).length
+  · have h1 := h i hi
+    rw [List.getD_eq_getElem?_getD, List.getElem?_eq_getElem (by omega)] at h1
+    rw [List.getElem?_eq_getElem (by omega), (pieceAt_mem ptx i hi).2]
+    simp only [Option.getD_some] at h1
+    simp [h1]
+  · rw [List.getElem?_eq_none (by omega), List.getElem?_eq_none (by omega)]
+    rfl
+
+/-- **`cut_remaining_overlaps` on a deep-cut map** -/
+theorem cutRemaining_deep {input ptx : List Scaffold} {err : Int} (hd : DeepCut input ptx err) (b1 : Build)
+    (hstore : b1.store = expectedStore input ptx) (hfound : b1.found = (regOf input ptx).1)
+    (hmulti : b1.multi = sharedKeys input ptx) (hoid : b1.nextOid = oid0 input) :
+    ∃ b3, cutRemaining b1 = .ok b3 ∧ b3.store = expectedStoreDeep input ptx ∧ b3.multi = [] ∧
+      b3.cuts = b1.cuts + (sites input ptx).length ∧ b3.found = b1.found ∧ b3.namer = b1.namer ∧
+      b3.extra = b1.extra ∧ b3.joinGap = b1.joinGap ∧ b3.err = b1.err := by
+  have hinit : CutInv input ptx b1 (([] : List Key).map (siteOf ptx (regOf input ptx).1)).zipIdx b1 := by
+    refine ⟨by rw [hstore, expectedStore_eq_map]; simp, ?_, by simpa using hoid, by simp, rfl, rfl, rfl, rfl, rfl, rfl⟩
+    intro i hi
+    rw [hstore, expectedStore_eq_map, List.getD_eq_getElem?_getD, List.getElem?_map, (pieceAt_mem ptx i hi).2]
+    rfl
+  obtain ⟨bc, hfold, hinv⟩ := cutFold_deep hd b1 hfound (sharedKeys input ptx) [] b1 (by simp) hinit
+  simp only [List.nil_append] at hinv
+  refine ⟨{ bc with multi := [] }, ?_, ?_, rfl, ?_, hinv.found, hinv.namer, hinv.extra, hinv.joinGap, hinv.err⟩
+  · rw [cutRemaining_eq'', hmulti, hfold]; rfl
+  · exact store_eq_of_pointwise input ptx _ _ bc.store hinv.len hinv.store
+  · show bc.cuts = _
+    rw [hinv.cuts]
+    simp [sites]
 
 end AgpTpf.C02
